@@ -55,6 +55,9 @@ def check_output(sc, out, cfg_, lat, flds, axes, pos, fields, big=False):
     t_in = 0.5          # lattice.Lattice.ap's default time
     if not compare.same_float(H["time"], float(t_in)) and H["time"] != t_in:
         return "time %r, the input's is %r" % (H["time"], t_in)
+    # the ratios of the kept level jumps are the input's (a header may state more entries than jumps: that is a legal variant)
+    if H["ratios"][:lim] != [2] * lim:
+        return "refinement ratios %r, the input's kept level jumps have %r" % (H["ratios"], [2] * lim)
     glo, ghi = gamma.geo({"ndims": 3, "dom": lat.dom()}, cfg_)
     if H["geo_lo"] != [glo[cx], glo[cy]] or H["geo_hi"] != [ghi[cx], ghi[cy]]:
         return "geometry %r..%r, in-plane geometry of the input %r..%r" % (H["geo_lo"], H["geo_hi"], [glo[cx], glo[cy]], [ghi[cx], ghi[cy]])
